@@ -4,6 +4,7 @@ import (
 	"encoding/json"
 	"fmt"
 	"os"
+	"os/exec"
 	"path/filepath"
 	"sort"
 	"strconv"
@@ -95,6 +96,16 @@ func init() {
 	for _, id := range []string{"C01", "C02", "C03", "C04", "C09", "C12", "C20"} {
 		reg(&checkSpec{ID: id, Runs: []runSpec{updRun(updQ, updT), updRun(updQs, updTs)}, Assumptions: commonAssumptions})
 	}
+	// histories of length two on one witness instance (in-process state between calls)
+	twoCovers := []string{"two/both-accepted-different-logs", "two/both-accepted-same-log", "two/same-bytes-replayed-to-another-log"}
+	for _, id := range []string{"C01", "C02", "C03", "C04", "C12"} {
+		checks[id].Runs = append(checks[id].Runs, runSpec{Harness: pkgWitness + ".VerifUpdateTwoSteps", Quick: p("logs", 2, "signers", 1, "maxproof", 1, "replay", 0), Thorough: p("logs", 2, "signers", 2, "maxproof", 2, "replay", 0), Covers: twoCovers})
+	}
+	// C03's storage-failure refusal class: the fault harness with C03's monitors
+	fltCovers := []string{"flt/refused-because-of-a-fault", "flt/refused-after-signing"}
+	checks["C03"].Runs = append(checks["C03"].Runs,
+		runSpec{Harness: pkgWitness + ".VerifFaults", Quick: p("logs", 1, "signers", 1, "maxproof", 1, "store", 0), Thorough: p("logs", 2, "signers", 2, "maxproof", 2, "store", 0), Covers: fltCovers},
+		runSpec{Harness: pkgWitness + ".VerifFaults", Quick: p("logs", 1, "signers", 1, "maxproof", 1, "store", 1), Thorough: p("logs", 2, "signers", 2, "maxproof", 2, "store", 1), Covers: fltCovers})
 	reg(&checkSpec{ID: "C07", Assumptions: append([]string{"A-db: database/sql + SQLite contract model (harness/internal/verifrt/sqlmodel.go): commit is atomic and durable, failure applies nothing"}, commonAssumptions...), Runs: []runSpec{
 		{Harness: pkgWitness + ".VerifFaults", Quick: p("logs", 1, "signers", 1, "maxproof", 1, "store", 0), Thorough: p("logs", 2, "signers", 2, "maxproof", 2, "store", 0), Covers: []string{"flt/accepted-no-fault", "flt/refused-because-of-a-fault", "flt/read-error", "flt/second-update-accepted"}},
 		{Harness: pkgWitness + ".VerifFaults", Quick: p("logs", 1, "signers", 1, "maxproof", 1, "store", 1), Thorough: p("logs", 2, "signers", 2, "maxproof", 2, "store", 1), Covers: []string{"flt/accepted-no-fault", "flt/refused-because-of-a-fault", "flt/read-error", "flt/second-update-accepted"}},
@@ -293,6 +304,58 @@ func cmdCheck(args []string) int {
 		nViol += len(rep.Violations)
 	}
 
+	// ---- native replay of cover witnesses (translator validation) ----
+	replayed, replayTotal := 0, 0
+	{
+		type scen struct {
+			Cover string            `json:"cover"`
+			Model map[string]string `json:"model"`
+		}
+		var scs []scen
+		seen := map[string]bool{}
+		for _, rep := range reports {
+			if !strings.HasSuffix(rep.Harness, ".VerifUpdateStep") {
+				continue
+			}
+			var ids []string
+			for c := range rep.Covers {
+				ids = append(ids, c)
+			}
+			sort.Strings(ids)
+			for _, c := range ids {
+				if strings.HasPrefix(c, "replay/") && !seen[c] && rep.Covers[c].Model != nil {
+					seen[c] = true
+					scs = append(scs, scen{Cover: c, Model: rep.Covers[c].Model})
+				}
+			}
+		}
+		if len(scs) > 0 && os.Getenv("WSYM_NO_REPLAY") == "" {
+			replayTotal = len(scs)
+			os.MkdirAll(filepath.Join(root, ".work"), 0o755)
+			jf := filepath.Join(root, ".work", fmt.Sprintf("replay-%s-%d.json", id, os.Getpid()))
+			b, _ := json.MarshalIndent(scs, "", " ")
+			os.WriteFile(jf, b, 0o644)
+			cmd := exec.Command(filepath.Join(root, "native", "run.sh"), "internal/witness", "-v", "-run", "TestReplayCovers$")
+			cmd.Env = append(os.Environ(), "WSYM_REPLAY_JSON="+jf)
+			out, err := cmd.CombinedOutput()
+			txt := string(out)
+			if i := strings.Index(txt, "REPLAYED "); i >= 0 {
+				fmt.Sscanf(txt[i:], "REPLAYED %d/", &replayed)
+			}
+			if err != nil || strings.Contains(txt, "REPLAY MISMATCH") || replayed != replayTotal {
+				for _, l := range strings.Split(txt, "\n") {
+					if strings.Contains(l, "REPLAY MISMATCH") || strings.Contains(l, "FAIL") || strings.Contains(l, "panic") {
+						inconclusive = append(inconclusive, "native replay: "+strings.TrimSpace(l))
+					}
+				}
+				if replayed != replayTotal {
+					inconclusive = append(inconclusive, fmt.Sprintf("native replay validated %d of %d cover witnesses (the encoding or a contract disagrees with the real build)", replayed, replayTotal))
+				}
+			}
+			os.Remove(jf)
+		}
+	}
+
 	// ---- replay artefacts and verdict lines ----
 	replayDir := filepath.Join(root, ".work", "replay")
 	os.MkdirAll(replayDir, 0o755)
@@ -365,7 +428,8 @@ func cmdCheck(args []string) int {
 	ev.Coverage = map[string]interface{}{
 		"states":                        states,
 		"transitions":                   trans,
-		"traces_validated_against_impl": 0,
+		"traces_validated_against_impl": replayed,
+		"cover_witnesses_replayed_of":   replayTotal,
 		"samples":                       samples,
 		"obligations":                   obl,
 		"discharged":                    dis,
@@ -397,7 +461,7 @@ func cmdCheck(args []string) int {
 			return 2
 		}
 	}
-	fmt.Printf("%s tier=%s verdict=%s paths=%d queries=%d obligations=%d/%d wall=%.1fs\n", id, tier, ev.Verdict, states, trans, dis, obl, ev.WallS)
+	fmt.Printf("%s tier=%s verdict=%s paths=%d queries=%d obligations=%d/%d replayed=%d/%d wall=%.1fs\n", id, tier, ev.Verdict, states, trans, dis, obl, replayed, replayTotal, ev.WallS)
 	if nViol > 0 {
 		return 1
 	}
